@@ -106,6 +106,21 @@ class Ctx:
             self._built[key] = out
         return self._built[key]
 
+    def build_pamh(self):
+        """pam/pam_whawty.c from /repo, unmodified, with ASan+UBSan, stub PAM headers and syscall wrappers."""
+        if 'pamh' not in self._built:
+            out = os.path.join(self.work, 'bin', 'pamh')
+            t0 = time.time()
+            cmd = ['clang', '-g', '-O1', '-fsanitize=address,undefined', '-fno-sanitize-recover=all', '-fno-omit-frame-pointer',
+                   '-I', os.path.join(VERIF, 'pam', 'stubs'), '-o', out, os.path.join(REPO, 'pam', 'pam_whawty.c'),
+                   os.path.join(VERIF, 'pam', 'harness.c'), '-Wl,--wrap=select,--wrap=read,--wrap=write']
+            p = subprocess.run(cmd, stdout=subprocess.PIPE, stderr=subprocess.STDOUT, text=True)
+            if p.returncode != 0:
+                raise HarnessError('pamh build failed:\n' + p.stdout[-3000:])
+            log('pamh built in %.1fs' % (time.time() - t0))
+            self._built['pamh'] = out
+        return self._built['pamh']
+
     # ------------------------------------------------------------------ run
     def run_child(self, name, argv, timeout, extra_env=None, cwd=None, race=False):
         """Run a stage child that writes a vr.Result JSON to $VERIF_OUT. Returns the dict."""
